@@ -294,9 +294,9 @@ class RecocoIOWorker (IOWorker):
     if len(self.send_buf)==0 and not self._connecting and not self.closed:
       try:
         l = self.socket.send(data, socket.MSG_DONTWAIT)
-        if l == len(self.send_buf):
+        if l == len(data):
           return
-        data = data[l]
+        data = data[l:]
       except socket.error as e:
         if e.errno != errno.EAGAIN:
           log.error("Socket error: " + e.strerror)
